@@ -144,6 +144,15 @@ func c16DataURIGen(c *engine.Ctx, in []byte, args map[string]string) {
 	}
 	if string(gotMT) != wantMT || !bytes.Equal(data, in) {
 		c.Fail("DataURI", fmt.Sprintf("DataURI(%q) = (%q, %q) want (%q, %q)", orig, gotMT, data, wantMT, in))
+		return
+	}
+	// what a call returned belongs to the caller: later calls must not change it
+	for _, other := range []string{"data:;base64,WFlaWFlaWFla", "data:text/css,%41%42%43%44%45%46", "data:,xyz"} {
+		parse.DataURI([]byte(other))
+		if string(gotMT) != wantMT || !bytes.Equal(data, in) {
+			c.Fail("DataURI-result-overwritten", fmt.Sprintf("DataURI(%q) returned (%q, %q); after DataURI(%q) the same slices read (%q, %q)", orig, wantMT, in, other, gotMT, data))
+			return
+		}
 	}
 }
 
@@ -372,6 +381,29 @@ func c16Work(c *engine.Ctx) {
 	}
 	enum("url", all, 1, nil)
 	enum("bytes", all, 1, nil)
+	// every byte value at every position of strings around the word sizes a vectorised implementation would use
+	{
+		sp := c.SpaceByName("bytes")
+		k := 0
+		for _, L := range []int{7, 8, 9, 15, 16, 17, 24, 31, 32, 33} {
+			for pos := 0; pos < L; pos++ {
+				for v := 0; v < 256; v++ {
+					k++
+					if !c.Mine(k) {
+						continue
+					}
+					b := bytes.Repeat([]byte{'a'}, L)
+					if pos%2 == 1 {
+						b[(pos+3)%L] = 'Q'
+					}
+					b[pos] = byte(v)
+					c.Exec(sp, b, nil)
+					c.Count("exec", 1)
+					c.Count("byte-position-sweep", 1)
+				}
+			}
+		}
+	}
 	enum("url", engine.Atoms("a", " ", "%", "+", "/", "?", "&", "=", "\x00", "\xff", "é", "~"), c.Pick(3, 4), nil)
 	enum("url", engine.Atoms("%", "+", "0", "9", "a", "f", "A", "F", "g", "z"), c.Pick(7, 8), nil)
 	for _, mt := range c16MediaTypes {
